@@ -97,7 +97,7 @@ func (w *world) enabled() []op {
 	}
 	for i, o := range w.objs {
 		if !o.isCtx && o.origin == "c.Logger" {
-			out = append(out, op{"l.UpdateContext", i})
+			out = append(out, op{"l.UpdateContext", i}, op{"l.UpdateReset", i})
 		}
 		if !o.isCtx && len(w.events) < maxEvents {
 			out = append(out, op{"open", i})
@@ -136,6 +136,15 @@ func (w *world) apply(o op) {
 		f := seqx.Field{M: "Str", Key: name("u"), Val: "v"}
 		src.lg.UpdateContext(func(c zerolog.Context) zerolog.Context { return seqx.ApplyContext(c, f) })
 		src.m.Ctx = append(src.m.Ctx, seqx.FieldsExp([]seqx.Field{f})...)
+		if w.updated == nil {
+			w.updated = map[int]bool{}
+		}
+		w.updated[o.tgt] = true
+	case "l.UpdateReset": // in place: the values copied from this logger earlier (Hook, Level, ...) share its context bytes
+		src := w.objs[o.tgt]
+		f := seqx.Field{M: "Str", Key: name("r"), Val: "v"}
+		src.lg.UpdateContext(func(c zerolog.Context) zerolog.Context { return seqx.ApplyContext(c.Reset(), f) })
+		src.m.Ctx = seqx.FieldsExp([]seqx.Field{f})
 		if w.updated == nil {
 			w.updated = map[int]bool{}
 		}
